@@ -130,6 +130,10 @@ structure ConvTie where
   /-- (operationId, parameter name, location) of parameters whose tag carries a value only one converter reads
       (or one outside the oracle): outside C11's quantifier "validator tags the converters understand" -/
   excused : List (String × String × String) := []
+  /-- the MODEL predicts an `enum` member that is not a value of the schema's type at some site (finding C08-F3):
+      per version -/
+  mistyped30 : Bool := false
+  mistyped31 : Bool := false
 
 open Gleece.Conv in
 /-- is the tag one both converters read the same way (`Agreeable`, decided on the oracle)? -/
@@ -161,10 +165,14 @@ def convSite (out : ConvTie) (label tn validator : String) (key : String × Stri
   let mut out := out
   -- a named type is a `$ref` (nothing is written next to it); a slice of anything is an inline array schema
   if !(isPrimName (stripArr tn)) && !(tn.startsWith "[]") then return out
+  -- `[]byte` / `time.Time`: the TYPE already gives the schema a format; not the converters' doing
+  if ["binary", "date-time", "map"].contains (Gleece.IR.toOpenApiType tn) then return out
   let t := tyOfName tn
   let rs := parseRules validator
   if !(tagInDomain t rs) then
-    return { out with skipped := out.skipped + 1, excused := key :: out.excused }
+    return { out with skipped := out.skipped + 1, excused := key :: out.excused, mistyped30 := true, mistyped31 := true }
+  if ((rs.foldl (apply30 drvParsers t) {}).enum.any fun m => !(memberOfType t m)) then out := { out with mistyped30 := true }
+  if ((rs.foldl (apply31 drvParsers t) {}).enum.any fun m => !(memberOfType t (memberView drvParsers m))) then out := { out with mistyped31 := true }
   match s30, s31 with
   | some s30, some s31 =>
     if (s30.getObjVal? "$ref").toOption.isSome then return out
